@@ -11,6 +11,7 @@ BIN = _m.BIN
 RUNMOD = _m.RUNMOD
 FEATURES = getattr(_m, "FEATURES", None)
 FNS = ['uu_uint_try_from', 'uu_from', 'uu_wrapping_from', 'uu_saturating_from', 'uu_from_uint', 'uu_checked_from_uint', 'uu_to', 'uu_wrapping_to', 'uu_saturating_to', 'uu_uint_try_to']
+NO_ADAPT = True       # the owning property's check widens its own search when its sources change
 BUDGET = 1500          # generated cases kept per run (the owning property runs them all)
 
 
